@@ -59,11 +59,22 @@ theorem quiet_logged {w : World} {r : Res} (h : Quiet w r.1) : Quiet w (logged r
 theorem quiet_connectionLost {w : World} (h : Halted w) : Quiet w (connectionLost w).1 := by
   unfold connectionLost
   dsimp only
-  split
-  · quiet_rfl
-  · split
-    · rw [mInput_halted (w := { w with timer := false, conn := none }) h.1]; quiet_rfl
-    · rw [mInput_halted (w := { w with timer := false, conn := none }) h.1]; quiet_rfl
+  obtain ⟨t, e⟩ := cancelTimer_same Flags.stop_using_checks_active
+    { w with tt := w.tt.map fun _ => TrafficTimer.State.no_connection }
+  rcases hr : cancelTimer Flags.stop_using_checks_active
+    { w with tt := w.tt.map fun _ => TrafficTimer.State.no_connection } with ⟨u, er⟩
+  rw [hr] at e
+  simp only at e
+  subst e
+  cases er with
+  | some er => simp only [andThen]; quiet_rfl
+  | none =>
+    simp only [andThen]
+    split
+    · quiet_rfl
+    · split
+      · rw [mInput_halted (by exact h.1)]; quiet_rfl
+      · rw [mInput_halted (by exact h.1)]; quiet_rfl
 
 theorem quiet_tOuts (k : Terminator.Output → World → Res) (hk : ∀ o v, Halted v → Quiet v (k o v).1)
     (os : List Terminator.Output) : ∀ v : World, Halted v → Quiet v (tOuts k os v).1 := by
@@ -160,6 +171,29 @@ theorem quiet_connectAs (nm : Option String) (v : World) : Quiet v (connectAs nm
   obtain ⟨ws, wn, q, mo, e, _⟩ := connectAs_same nm v
   rw [e]; quiet_rfl
 
+theorem quiet_ttOuts (os : List TrafficTimer.Output) : ∀ v : World, Quiet v (ttOuts os v).1 := by
+  induction os with
+  | nil => intro v; exact Quiet.refl _
+  | cons o os ih =>
+    intro v
+    cases o
+    · simp only [ttOuts]
+      obtain ⟨t, e⟩ := beginTiming_same v
+      rcases hr : beginTiming v with ⟨u, er⟩
+      rw [hr] at e
+      simp only at e
+      subst e
+      cases er with
+      | none =>
+        simp only [andThen]
+        refine Quiet.trans ?_ (ih _)
+        quiet_rfl
+      | some er => quiet_rfl
+    · simp only [ttOuts]
+      refine Quiet.trans ?_ (ih _)
+      unfold signalReconnect
+      split <;> quiet_rfl
+
 /-- no event moves a halted Manager, re-opens anything or sends anything -/
 theorem quiet_step {v : World} (hv : Halted v) (e : Ev) : Quiet v (step v e).1 := by
   have ofres : ∀ r : Res, (ofRes r).1 = r.1 := by
@@ -222,6 +256,17 @@ theorem quiet_step {v : World} (hv : Halted v) (e : Ev) : Quiet v (step v e).1 :
   | turn =>
     simp only [step, turn]
     exact Quiet.trans (b := { v with queue := [] }) ⟨rfl, rfl, rfl, rfl, rfl, rfl⟩ (quiet_runThunks _ _ hv)
+  | expire =>
+    simp only [step]
+    split
+    · quiet_rfl
+    · split
+      · quiet_rfl
+      · split
+        · quiet_rfl
+        · rw [ofres]
+          refine Quiet.trans ?_ (quiet_ttOuts _ _)
+          quiet_rfl
   | lready k =>
     simp only [step]
     split
